@@ -57,6 +57,10 @@ CLAIMED = {
         text="Theorems for every list of arguments (files and directories with arbitrary contents) and every --skip list: the exit status is non-zero exactly when some examined file (a .qasm file given directly or found under a given directory, not skipped, not ignore-tagged) fails loads()+validate(); the named files are exactly the failing examined files in discovery order; the 'nothing to check' shortcut can never hide a failure (every failing file is counted and not skipped); the pre-fix counting is refuted by a one-file tree. Tie: trees with nested, hidden and oddly named directories and files (.qasm.bak, upper-case extension, glob and markup characters, spaces), every content kind (valid, invalid, unparsable, tag before/after the header, version 2), files given twice and under a given directory, skips spelled as discovered / differently / unrelated, run as real `python -m pyqasm.cli.main validate` processes; exit status and named files compared with the model evaluated by coqc.",
         ref="DESIGN.md §6/C20",
         note="Trusted: Coq kernel + vm_compute; harness/check_c20.py (materialises trees under ${VERIF_SCRATCH:-/tmp}/verif-run-c20-*, removed at exit; reproduces os.walk's path strings; parses stdout); typer/rich process wiring; the per-file ground truth is loads()+validate() on the current tree. os.walk order, symlinks and encodings are outside the property."),
+    "C17": dict(engine="coq-module",
+        technique="Coq theorems on the abstract machine (a rejected call leaves every module as it was and fails again the same way; modules do not influence each other; run is a function) + differential histories on real modules: rejected programs vs never-processed modules, interleavings, hash seeds / fresh processes",
+        text="Theorems: if a call on module i is rejected the world is unchanged and the same call is rejected again with the same error; a call on module i never changes module j; the machine's run is a function of the program and the call sequence; answers depend on the program only. Tie and search: (a) on programs unroll() rejects (every catalogue error in every context, errors reachable only in a later loop iteration) every call of a random history -- validate, unroll, counts, depth, dumps, flags -- must return or raise exactly what it does on a module never processed (same exception class and message, dumps printing the original); (b) modules that become rejected in the middle of a history (kept external gates whose definitions a transformation drops): retries and accessors raise the same error; (c) outcomes of a module are unchanged when other modules, valid or not and using the same names for aliases/gates/subroutines/variables, are processed in between; (d) the same histories give byte-identical outputs in five fresh processes with hash seeds 0, 1, 2, 12345 and random; (e) rejected-program histories agree with the abstract machine.",
+        ref="DESIGN.md §6/C17", note=MOD_NOTE + "Hash-seed and fresh-process independence are facts about CPython (set/dict iteration) that the model cannot exhibit: they are covered by the seed sweep only (partial on that clause). Threads are outside the property."),
     "C02": dict(
         engine="coq-lang",
         technique="Coq theorems on the visitor model's operand resolution + exact correspondence with pyqasm on enumerated index/broadcast/alias/subroutine shapes",
